@@ -108,6 +108,10 @@ def run(rep: vk.Report):
     for kind in (["lin", "vec", "fn:atan", "fn:log2"] if quick else ["lin", "var", "sq", "vec", "fn:sin", "fn:atan", "fn:log2"]):
         for n in deep_sizes:
             plan.append((kind, "+", n, "left"))
+    # the edge-of-depth product and quotient chains are always in the plan (recorded findings K6 / K7 live there)
+    for must in [("lin", "*", 900, "left"), ("lin", "/", 900, "left")]:
+        if must not in plan:
+            plan.append(must)
     structs = Cases("chain-struct", IMPORTS, STRUCT_TYPE, STRUCT_CHECKER, defs=DEFS)
     nums, nmeta = [], []
     recursion = 0
